@@ -293,6 +293,7 @@ def run_case(ctx, case):
     handles = {}
     _FORGOTTEN.clear()
     leaky = []            # handles created by sequential / context requests (known to stay active)
+    n_meas_ops = 0
     given_up = []         # handles of a request whose every attempt missed the fidelity bound
     released_ids = set()
     reuse = 0
@@ -325,7 +326,18 @@ def run_case(ctx, case):
                     elif o.get("flag") == "np":
                         import numpy as _np
                         flag = _np.bool_(flag)
-                    q.measure(inplace=flag)
+                    n_meas_ops += 1
+                    if n_meas_ops % 3 == 0:
+                        # the outcome goes where the caller says: an entry of its own array, or a register handle (`future=`)
+                        if n_meas_ops % 2 == 0:
+                            fut = conn.new_array(1).get_future_index(0)
+                        else:
+                            from netqasm.sdk.futures import RegFuture
+                            fut = RegFuture(connection=conn)
+                        ctx.count("measurements_into_a_caller_provided_future")
+                        q.measure(future=fut, inplace=flag)
+                    else:
+                        q.measure(inplace=flag)
                     if not o["inplace"]:
                         released_ids.add(qid)
                 elif k == "free":
